@@ -202,7 +202,10 @@ func c14Child(args []string) int {
 			aclDesc = "keytypes:" + w.Peer.ACL.KeyTypes
 		}
 		nextNonce := func() string { nonce++; return strconv.FormatUint(nonce, 10) }
-		switch k := rng.Intn(10); {
+		switch k := rng.Intn(11); {
+		case k == 10:
+			c14Init(w, rng, accs, i, emit)
+			w = nil // the configuration may have been replaced: start the next vector on a fresh world
 		case k < 6:
 			c14Plain(w, cc, rng, names, accs, nextNonce, aclDesc, i, emit)
 		case k < 8:
@@ -252,6 +255,57 @@ func c14Arg(w *World, rng *rand.Rand, accs []*Account) string {
 		return "\x00\xff\xfe"
 	}
 	return "TT"
+}
+
+// Init has no recover of its own: configurations whose fields are well-formed enough to pass the
+// decoders but odd enough to trip the code behind them
+func c14Init(w *World, rng *rand.Rand, accs []*Account, i int, emit func(c14Rec)) {
+	odd := []string{"16L5yRNPTuciSgXGHqYwn9N6NeoKqopAu", "1111111111111111111114oLvT2", "3QJmnh", "", "2d 5", accs[0].AddrString(), accs[0].AddrString() + "1", strings.Repeat("1", 60), "0OIl"}
+	pick := func() string { return odd[rng.Intn(len(odd))] }
+	var args []string
+	desc := ""
+	if rng.Intn(12) == 0 {
+		// positional
+		n := 2 + rng.Intn(5)
+		args = []string{"platformski", []string{w.Robot.SKI, "zz", ""}[rng.Intn(3)]}
+		for len(args) < n {
+			args = append(args, pick())
+		}
+		desc = fmt.Sprintf("init positional %q", trunc(args))
+	} else {
+		cfg := map[string]interface{}{}
+		contract := map[string]interface{}{"symbol": []string{"TT", "TT", "TT", "TT", "TT", "TT", "tt", "T-1", ""}[rng.Intn(9)], "robotSKI": []string{w.Robot.SKI, w.Robot.SKI, w.Robot.SKI, w.Robot.SKI, "abc", "zz", ""}[rng.Intn(7)]}
+		if rng.Intn(4) > 0 {
+			contract["admin"] = map[string]interface{}{"address": pick()}
+		}
+		if rng.Intn(3) == 0 {
+			contract["options"] = map[string]interface{}{"disabledFunctions": []string{"TxScript", "nosuch"}, "disableSwaps": true}
+		}
+		cfg["contract"] = contract
+		if rng.Intn(4) > 0 {
+			tok := map[string]interface{}{"name": "n", "decimals": 8}
+			tok["issuer"] = map[string]interface{}{"address": accs[2].AddrString()}
+			for _, f := range []string{"issuer", "feeSetter", "feeAddressSetter", "redeemer"} {
+				if rng.Intn(2) == 0 {
+					tok[f] = map[string]interface{}{"address": pick()}
+				}
+			}
+			cfg["token"] = tok
+		}
+		b, _ := json.Marshal(cfg)
+		args = []string{string(b)}
+		desc = "init json " + truncS(string(b), 300)
+	}
+	emit(c14Rec{I: i, Phase: "start", Kind: "plain", Desc: desc})
+	var a [][]byte
+	for _, x := range args {
+		a = append(a, []byte(x))
+	}
+	res, _ := w.Peer.Simulate("tt", w.Peer.NextTxID(), w.Admin.Creator, true, a)
+	w.Peer.Commit("tt", res)
+	// the configuration in force is applied by the next invocation
+	res2, _ := w.Peer.Simulate("tt", w.Peer.NextTxID(), w.Client.Creator, false, strArgs("metadata", nil))
+	emit(c14Rec{I: i, Phase: "done", Replied: res.Panicked == nil && res.Status != 0 && res2.Panicked == nil && res2.Status != 0, Status: res.Status, Msg: truncS(res.Message+" | "+res2.Message, 200)})
 }
 
 func c14Plain(w *World, cc *core.Chaincode, rng *rand.Rand, names []string, accs []*Account, nextNonce func() string, aclDesc string, i int, emit func(c14Rec)) {
